@@ -26,7 +26,7 @@ let run_case (line : string) : string =
           match op with
           | ["G"; tag; a; ann; wd] ->
               let u = BmpModel.URoutes (n 0, plist ann, n (i_of tag), n 0, plist wd) in
-              Stdlib.List.map show_down (bgp_unit lb render prog id (u, bgp_view id peer_asn u (parse_attrs a)))
+              Stdlib.List.map show_down (bgp_unit lb render prog id (u, bgp_view (sess_prov id (n 0) peer_asn) u (parse_attrs a)))
           | _ -> failwith ("bad op: " ^ join " " op)) ops) in
       (* Processor::process after the loop: the session's routes are withdrawn *)
       let fin l = "seq:" ^ join ";" (l @ ["w#" ^ pn id]) in
